@@ -24,7 +24,7 @@ import time
 
 import cbor2
 
-from common import Check, coq_bytes, coq_N
+from common import Check
 
 env.shim_oscrypto()
 import bpdrive  # noqa: E402
@@ -193,11 +193,11 @@ def suite_aad(chk, node, quick):
         wire = bpdrive.encode_bundle(case['spec'])
         impl.append(node.external_aad(wire, case['sec_hdr'], case['source'], case['scope'], case['addl'], case['target']))
         terms.append('(%s, mkCB %d %d %d 0 [], %s, %s, %s, %d)' % (
-            coq_bytes(wire), case['sec_hdr'][0], case['sec_hdr'][1], case['sec_hdr'][2],
+            sd.coq_octets(wire), case['sec_hdr'][0], case['sec_hdr'][1], case['sec_hdr'][2],
             sd.coq_cbor(bpdrive.eid_to_cbor(case['source'])), sd.coq_scope(case['scope']), sd.coq_octets(case['addl']),
             case['target']))
     func = '(fun c => match c with (w, sec, src, sc, ad, t) => direct_aad w sec src sc ad t end)'
-    model = chk.coq_eval('aad', ['Lib.Cbor', 'Model.BpSec'], terms, func)
+    model = chk.coq_eval('aad', ['Lib.Cbor', 'Model.BpSec'], terms, func, chunk=max(12, (len(terms) + 15) // 16))
     bad = []
     for (case, real, mod) in zip(cases, impl, model):
         real_c = None if isinstance(real, str) else list(real)
@@ -235,7 +235,7 @@ def verify_signature(pki_kind, data, sig):
 
 
 def suite_structure(chk, wires, node):
-    terms = [coq_bytes(ent['wire']) for ent in wires]
+    terms = [sd.coq_octets(ent['wire']) for ent in wires]
     model = chk.coq_eval('inputs', ['Lib.Cbor', 'Model.BpSec'], terms, 'wire_inputs')
     bad = []
     for (ent, mod) in zip(wires, model):
@@ -390,13 +390,13 @@ def suite_alterations(suite, wires, quick):
     disagree = []
     prelude = []
     for (widx, ent) in enumerate(wires):
-        prelude.append('Definition orig%d := %s.' % (widx, coq_bytes(ent['wire'])))
+        prelude.append('Definition orig%d := %s.' % (widx, sd.coq_octets(ent['wire'])))
         cases = alterations(ent, chk.rng, quick)
         classes = [sd.diff_covered(ent['wire'], case['alt'], SEC_TYPE) for case in cases]
         trace('%s: %d alterations classified' % (ent['id'], len(cases)))
         outs = sd.sweep(dict(profile=ent['profile']), [case['alt'] for case in cases], procs=nproc)
         trace('%s: swept' % ent['id'])
-        budget = 140 if quick else 2000
+        budget = 90 if quick else 2000
         for (cidx, (case, cls, out)) in enumerate(zip(cases, classes, outs)):
             replay = dict(wire_hex=ent['wire'].hex(), alt_hex=case['alt'].hex(), profile=ent['profile'], label=case['label'],
                           payload_hex=ent['payload'].hex(), wire_id=ent['id'])
@@ -410,15 +410,15 @@ def suite_alterations(suite, wires, quick):
             suite.count('class', cls[0])
             suite.count('profile', ent['profile'])
             # model verdict for every field alteration of MAC0 bundles and a share of everything else
-            want = (case['kind'] == 'field' and len(ent['wire']) < 400) or cidx % 5 == 0
+            want = (case['kind'] == 'field' and len(ent['wire']) < 400 and (not quick or cidx % 2 == 0)) or cidx % 5 == 0
             if want and budget > 0 and len(ent['wire']) < 1500:
                 budget -= 1
-                verdict_terms.append('(orig%d, %s)' % (widx, coq_bytes(case['alt'])))
+                verdict_terms.append('(orig%d, %s)' % (widx, sd.coq_octets(case['alt'])))
                 verdict_meta.append((ent, case, cls, out))
     trace('%d verdict terms' % len(verdict_terms))
     if verdict_terms:
         model = chk.coq_eval('verdict', ['Lib.Cbor', 'Model.BpSec'], verdict_terms, '(fun p => verdict (fst p) (snd p))',
-                             prelude='\n'.join(prelude), chunk=120)
+                             prelude='\n'.join(prelude), chunk=max(40, (len(verdict_terms) + 15) // 16))
         for ((ent, case, cls, out), verdict) in zip(verdict_meta, model):
             suite.count('model_verdict', verdict)
             direct = out['direct']
